@@ -1,7 +1,7 @@
 (* SnapRead/ProofsTop.v — the proofs of the theorems restated in Props.v. *)
 From Verif Require Import Base.Lex SnapRead.Model SnapRead.ModelRead SnapRead.ProofsOrd SnapRead.ProofsList
   SnapRead.ProofsScanF SnapRead.ProofsScanR SnapRead.ProofsScanLoop SnapRead.ProofsScanLoopR
-  SnapRead.ProofsCache SnapRead.ProofsRead SnapRead.ProofsTerm SnapRead.ProofsMove SnapRead.ProofsBuffer SnapRead.ProofsWorld SnapRead.ProofsWorldScan SnapRead.ProofsReadThrough.
+  SnapRead.ProofsCache SnapRead.ProofsRead SnapRead.ProofsTerm SnapRead.ProofsMove SnapRead.ProofsBuffer SnapRead.ProofsWorld SnapRead.ProofsWorldScan SnapRead.ProofsReadThrough SnapRead.ProofsMoveTerm.
 
 (* For every truth (ascending keys), every snapshot ts, all bounds (empty = unbounded; even lo > hi),
    every batch size (0 and 1 are replaced by the default, sizes above 2^32-1 are capped, as in newScanner), key-only or not, EVERY
@@ -232,19 +232,26 @@ Qed.
    owner of a transaction finishes it): every answer is read_at, at the version current at that
    moment, on the final truth.  SetSnapshotTS clears the cache and the ignored set on every call;
    environment assumption at a move (p_env): transactions still alive and pushable can only commit
-   above the new timestamp. *)
+   above the new timestamp.  Second half (so that the statement is not vacuous for small fuel): with
+   fuel >= patience + 2 (patience = the waiting rounds the live transactions impose) EVERY Get of the
+   program returns an answer. *)
 Lemma C05_ts_moves_proof :
   forall (w : world) (ts : N) (fuel : nat) (ops : list pop),
     txs_ok (w_txns w) ts ->
     let Fin := fun k => final_ws (w_txns w) (k_get (w_keys w) k) in
     let st := (w, mkRS ts None []) in
-    p_env fuel st ops -> p_right Fin fuel st ops.
+    p_env fuel st ops ->
+    p_right Fin fuel st ops /\
+    ((patience (w_txns w) + 2 <= fuel)%nat -> p_answered fuel st ops).
 Proof.
-  intros w ts fuel ops Htx Fin st Henv. apply p_program_right; [|exact Henv].
-  split; [|split].
-  - cbn. split; [exact Htx|]. split; [intros t []|intros k; reflexivity].
-  - intros k v Hv. discriminate.
-  - reflexivity.
+  intros w ts fuel ops Htx Fin st Henv.
+  assert (Hinv : pinv Fin st).
+  { split; [|split].
+    - cbn. split; [exact Htx|]. split; [intros t []|intros k; reflexivity].
+    - intros k v Hv. discriminate.
+    - reflexivity. }
+  split; [apply p_program_right; assumption|].
+  intros Hf. apply (p_program_answers Fin); assumption.
 Qed.
 
 
@@ -254,14 +261,34 @@ Qed.
    are statements about one timestamp and SetSnapshotTS drops both.  Every answer of every program of
    Get / SetSnapshotTS (forward and BACKWARD) / finish events is read_at at the current version.
    (Found here: the code kept the committed set across SetSnapshotTS; after a backward move below the
-   commit ts the value of the not yet committed-at-that-ts transaction was read — ex_backward_move.) *)
+   commit ts the value of the not yet committed-at-that-ts transaction was read — ex_backward_move.)
+   Second half: with fuel >= patience + 2 every Get returns an answer, whether the resolutions land or not. *)
 Lemma C05_ts_moves_read_through_proof :
   forall (w : world) (ts : N) (fuel : nat) (lands : nat -> bool) (ops : list pop),
     txs_ok (w_txns w) ts -> lock_fresh w ->
     let Fin := fun k => final_ws (w_txns w) (k_get (w_keys w) k) in
     let st := (ts, mkRst w [] []) in
-    q_envs fuel lands st ops -> q_right Fin fuel lands st ops.
+    q_envs fuel lands st ops ->
+    q_right Fin fuel lands st ops /\
+    ((patience (w_txns w) + 2 <= fuel)%nat -> q_answered fuel lands st ops).
 Proof.
-  intros w ts fuel lands ops Htx Hfr Fin st Henv. apply q_program_right; [|exact Henv].
-  split; [split; [exact Htx|split; [intros t []|intros k; reflexivity]]|]. split; [intros t []|exact Hfr].
+  intros w ts fuel lands ops Htx Hfr Fin st Henv.
+  assert (Hinv : rinv Fin (fst st) (snd st)).
+  { split; [split; [exact Htx|split; [intros t []|intros k; reflexivity]]|]. split; [intros t []|exact Hfr]. }
+  split; [apply q_program_right; assumption|].
+  intros Hf. apply (q_program_answers Fin); assumption.
 Qed.
+
+(* ---------------------------------------------------------------- the world of the examples in Props.v *)
+(* a world with every kind of leftover lock; ts = 50 *)
+Definition ex_world : world :=
+  mkWorld
+    [ ([97], mkKs [(10, Put [1])] (Some (mkLock 20 (LPut [2]))));      (* a: secondary of txn 20, committed at 30 *)
+      ([98], mkKs [(10, Put [3])] (Some (mkLock 40 LDel)));            (* b: txn 40 rolled back *)
+      ([99], mkKs [] (Some (mkLock 45 (LPut [4]))));                    (* c: txn 45 alive, finishes committed at 60 *)
+      ([100], mkKs [(12, Put [5])] (Some (mkLock 47 LPess)));           (* d: pessimistic *)
+      ([101], mkKs [(12, Put [6])] (Some (mkLock 70 (LPut [7]))));      (* e: later transaction *)
+      ([102], mkKs [(12, Put [8])] (Some (mkLock 48 (LPut [9])))) ]     (* f: txn 48 pushable *)
+    [ (20, TFinished (FCommitted 30)); (40, TFinished FRolledBack); (45, TAlive 2 (FCommitted 60));
+      (47, TAlive 0 FRolledBack); (70, TAlive 5 (FCommitted 90)); (48, TPushed (FCommitted 80)) ].
+
